@@ -450,6 +450,10 @@ def check(item, tier):
             raise
         except (AssertionError, ValueError) as e:      # the constructor rejects the input: out of scope
             r.count('rejected')
+            # every generated layout is rectangular with a start cell: none is rejected on the pinned tree.  A rejection is outside
+            # the statement ("accepted by ..."), but it silently shrinks what was covered: noted, and the run is not called exhaustive
+            r.count('capped_instances')
+            r.notes.setdefault('constructor_rejected_a_generated_input', {'item': repr(item)[:400], 'error': repr(e)[:200]})
             r.outcome(('rejected', dom, type(e).__name__))
             return r
         except Exception as e:                         # a crash is not a rejection
